@@ -529,4 +529,69 @@ def runProgram (fuel : Nat) (p : Program) : Option (Nat × List String) :=
   | some (.exit k, c) => some (k, c.out)
   | _ => none
 
+/-! ### what is called -/
+
+mutual
+/-- every function the expression calls is in `keep` -/
+def callsE (keep : List String) : Expr → Bool
+  | .call name _ args => keep.contains name && callsEs keep args
+  | .unary _ e _ => callsE keep e
+  | .binary _ l r => callsE keep l && callsE keep r
+  | .compare _ l r => callsE keep l && callsE keep r
+  | .logical _ l r => callsE keep l && callsE keep r
+  | .group e => callsE keep e
+  | .itoa e => callsE keep e
+  | .len e => callsE keep e
+  | .sliceNew _ vals => callsEs keep vals
+  | .sliceEval v i _ => callsE keep v && callsE keep i
+  | .substr v a none => callsE keep a && callsE keep v
+  | .substr v a (some b) => callsE keep a && callsE keep b && callsE keep v
+  | .copy _ src => callsE keep src
+  | _ => true
+def callsEs (keep : List String) : List Expr → Bool
+  | [] => true
+  | e :: rest => callsE keep e && callsEs keep rest
+end
+
+mutual
+/-- the same for statements; a statement inside a block or a function body defines no function -/
+def callsS (keep : List String) : Stmt → Bool
+  | .varDef _ vals => callsEs keep vals
+  | .assign _ vals => callsEs keep vals
+  | .varDefCall _ call => callsE keep call
+  | .assignCall _ call => callsE keep call
+  | .sliceAssign _ i v => callsE keep i && callsE keep v
+  | .funcDef _ _ _ _ _ => false
+  | .ret vals => callsEs keep vals
+  | .ifS c body elifs els => callsE keep c && callsSs keep body && callsEl keep elifs && callsSs keep els
+  | .forS init c incr body => callsO keep init && callsE keep c && callsO keep incr && callsSs keep body
+  | .brk => true
+  | .cont => true
+  | .print es => callsEs keep es
+  | .panic e => callsE keep e
+  | .expr e => callsE keep e
+def callsSs (keep : List String) : List Stmt → Bool
+  | [] => true
+  | s :: rest => callsS keep s && callsSs keep rest
+def callsEl (keep : List String) : List (Expr × List Stmt) → Bool
+  | [] => true
+  | (c, b) :: rest => callsE keep c && callsSs keep b && callsEl keep rest
+def callsO (keep : List String) : Option Stmt → Bool
+  | none => true
+  | some s => callsS keep s
+end
+
+/-- the top level: a function definition is either dropped or its body calls kept functions only -/
+def callsTop (keep : List String) : List Stmt → Bool
+  | [] => true
+  | .funcDef name _ _ _ body :: rest => (!keep.contains name || callsSs keep body) && callsTop keep rest
+  | st :: rest => callsS keep st && callsTop keep rest
+
+/-- removal of the definitions that are not kept -/
+def cleanP (keep : List String) (p : List Stmt) : List Stmt :=
+  p.filter fun st => match st with
+    | .funcDef name _ _ _ _ => keep.contains name
+    | _ => true
+
+
 end Tsh.Sem2.Src
